@@ -47,6 +47,21 @@ def parseV2 (o : OpLine) : Option SessV2 :=
                 subjects := subj, contexts := ctx }
   | _, _, _, _, _, _, _, _, _, _ => none
 
+/-- level `i` of a `v2c` line: `t<i>=iss,sgn,sig,iat,nbf,exp,fin,ver s<i>=subjects c<i>=contexts m<i>=field changed after signing` -/
+def parseLinkV2 (o : OpLine) (i : Nat) : Option LinkV2 :=
+  let k (p : String) := p ++ toString i
+  match o.nats? (k "t"), o.nats? (k "s"), (o.get? (k "c")).bind parseCtx, o.get? (k "m") with
+  | some [iss, sgn, sig, iat, nbf, exp, fin, ver], some subj, some ctx, some mu =>
+    if !(iss < 7 && 1 ≤ sgn && sgn < 7 && fin ≤ 1 && sig ≤ 1) then none
+    else some { t := { version := ver, issuer := iss, signer := some sgn, sigOK := sigValid sig mu iss sgn, iat := iat, nbf := nbf,
+                       exp := exp, subjects := subj, contexts := ctx },
+                final := fin == 1 }
+  | _, _, _, _ => none
+
+/-- the `n` origins of a `v2c` line, nearest first -/
+def parseOrigins (o : OpLine) (n : Nat) : Option (List LinkV2) :=
+  (List.range n).mapM fun i => parseLinkV2 o (i + 1)
+
 def tokStep (s : ACLSt) (o : OpLine) : Option (ACLSt × String) :=
   match o.name with
   | "epoch" => (o.nat? "e").map fun e => ({ s with epoch := e }, "=> ok")
@@ -74,6 +89,20 @@ def tokStep (s : ACLSt) (o : OpLine) : Option (ACLSt × String) :=
           | none => ""
         some (s, "=> " ++ v1Class res ++ eff)
     | _, _, _ => some (s, "=> bad-op")
+  | "v2c" =>
+    match o.nat? "n", o.nat? "rv", o.nat? "rc" with
+    | some n, some rv, some rc =>
+      if !((rc == 1 || rc == 2) && n ≤ 8) then some (s, "=> bad-op")
+      else match parseLinkV2 o 0, parseOrigins o n with
+        | some x, some os =>
+          let res := v2ChainCheck x os s.time rv rc
+          let eff := match credentials 6 (some (originalIssuer x os, res)) with
+            | some a => " as=" ++ toString a
+            | none => ""
+          some (s, "=> " ++ v1Class res ++ eff)
+        | _, _ => some (s, "=> bad-op")
+    | _, _, _ => some (s, "=> bad-op")
+  | "v2depth" => some (s, "=> ok max=" ++ toString maxDelegationDepth)
   | "bearer" =>
     match o.nat? "iss", o.nat? "sgn", o.nat? "sig", o.nat? "nbf", o.nat? "iat", o.nat? "exp", o.get? "mut" with
     | some iss, some sgn, some sig, some nbf, some iat, some exp, some mu =>
